@@ -16,12 +16,12 @@ def cfgOfMask (m : Nat) : Cfg :=
   { guards := m % 2 = 1, legacyChecked := (m / 2) % 2 = 1, algChecked := (m / 4) % 2 = 1, timeout := true }
 
 def rfcTok (i : Nat) (n : Option Nat) (imp : Nat) (alg : Bool) : Token :=
-  ⟨5000 + i, true, 1, true, .tst ⟨n, imp, alg, some 0⟩, none, 1⟩
+  ⟨5000 + i, true, 1, true, .tst ⟨n, imp, alg, some 0⟩, none, 1, true⟩
 
-def absentTok : Token := ⟨0, false, 0, false, .absent, none, 0⟩
+def absentTok : Token := ⟨0, false, 0, false, .absent, none, 0, true⟩
 
 def msTok (i : Nat) (d : Nat) : Token :=
-  ⟨5000 + i, false, 1, true, .data d, some (some 0), 1⟩
+  ⟨5000 + i, false, 1, true, .data d, some (some 0), 1, true⟩
 
 def ok200 (t : Token) : Wire := .http 200 (.der 0 t false)
 
@@ -33,6 +33,9 @@ def wireOf (r : Req) (i : Nat) (b : String) : Option Wire :=
     | "valid" => some (.http 200 (.b64 (some (msTok i r.imprint))))
     | "wimprint" => some (.http 200 (.b64 (some (msTok i (r.imprint + 1)))))
     | "badsig" => some (.http 200 (.b64 (some { msTok i r.imprint with sigOK := false })))
+    -- a genuine token issued for another value whose embedded content was swapped to this one: the
+    -- messageDigest attribute no longer matches the content, so the token's own verification fails
+    | "transplant" => some (.http 200 (.b64 (some { msTok i r.imprint with mdOK := false })))
     | "rogue" => some (.http 200 (.b64 (some { msTok i r.imprint with tsa := 2 })))
     | "notime" => some (.http 200 (.b64 (some { msTok i r.imprint with sigTime := none })))
     | "b64junk" => some (.http 200 (.b64 none))
@@ -178,8 +181,8 @@ def vcLine (kind : String) (lnb lna tnb tna : Int) (eku trusted : Bool) (att : O
     match u with
     | .timestamping => cert = 1 && between tnb tna t && eku && trusted
     | .requested => cert = leafId && between lnb lna t && usageOK
-  let tokR : Token := ⟨9000, true, 1, true, .tst ⟨some 42, H edA, true, att⟩, none, 1⟩
-  let tokC : Token := ⟨9000, false, 1, true, .data edA, some att, 1⟩
+  let tokR : Token := ⟨9000, true, 1, true, .tst ⟨some 42, H edA, true, att⟩, none, 1, true⟩
+  let tokC : Token := ⟨9000, false, 1, true, .data edA, some att, 1, true⟩
   let atq : Option Attach :=
     match kind with
     | "none" => some .none
@@ -201,8 +204,8 @@ def vcLine (kind : String) (lnb lna tnb tna : Int) (eku trusted : Bool) (att : O
 
 def mvLine (g : Bool) (kind variant : String) : String :=
   let src := if variant = "moved" then edB else edA
-  let tokR : Token := ⟨9000, true, 1, true, if variant = "empty" then .empty else .tst ⟨some 42, H src, true, some 0⟩, none, 1⟩
-  let tokC : Token := ⟨9000, false, 1, true, .data src, some (some 0), 1⟩
+  let tokR : Token := ⟨9000, true, 1, true, if variant = "empty" then .empty else .tst ⟨some 42, H src, true, some 0⟩, none, 1, true⟩
+  let tokC : Token := ⟨9000, false, 1, true, .data src, some (some 0), 1, true⟩
   let atq : Option Attach :=
     if variant = "none" then some .none else
     match kind with
